@@ -461,6 +461,15 @@ def run(prog: Program, res: Result) -> None:
         iv = floops[0].target.elts[0].id if isinstance(floops[0].target, ast.Tuple) else None
         oke = isinstance(a0, ast.Subscript) and dotted(a0.value) == "self._df2" and isinstance(a0.slice, ast.Name) and a0.slice.id == iv \
             and isinstance(it, ast.Call) and dotted(it.func) == "enumerate" and dotted(it.args[0]) == "self._algorithms"
+    for mk_ in mk:
+        kw_ = {k.arg: k.value for k in mk_.keywords}
+        ex_ok = kw_.get("exist_ok")
+        okx = isinstance(ex_ok, ast.Constant) and ex_ok.value is True
+        res.ob(okx, f"{mod.relpath}:{mk_.lineno} {norm(mk_, 60)}", construct_key(prog, mk_, mod))
+        if not okx:
+            bad("R5-export-folder-reusable", mk_,
+                f"`{norm(mk_, 70)}` creates the per-algorithm folder without exist_ok=True: the second export into the same "
+                f"<save_path> (another format, another run) raises FileExistsError and writes nothing")
     res.ob(oke, f"{er.loc()} export_results writes self._df2[k] once per algorithm", "export-each")
     if not oke:
         bad("R5-export-each-algorithm", er.node, "export_results does not write self._df2[k] exactly once for every algorithm k",
@@ -632,6 +641,7 @@ VARIANTS = [
       "        return isinstance(item, cls) or item in cls._value2member_map_", None),
     V("tables-class-level", _F, "        self._df2: list[pd.DataFrame] = []\n", "", "C20.R3",
       more=[(_F, "    def __init__(\n        self,\n        algorithms", "    _df2: list = []\n\n    def __init__(\n        self,\n        algorithms")]),
+    V("export-folder-not-reusable", _F, "mkdir(parents=True, exist_ok=True)", "mkdir(parents=True)", "C20.R5"),
     V("check-modes-not-called", _F, "        self._df2: list[pd.DataFrame] = []\n\n        self.__check_modes__()\n", "        self._df2: list[pd.DataFrame] = []\n", "C20.R2"),
     V("run-ignores-mode", _F, "        result = optimizer.optimize(task, mode=str(mode), workers=self._n_workers)", "        result = optimizer.optimize(task, workers=self._n_workers)", "C20.R4"),
     V("single-dataframe-for-all", _F, "            self._df2.append(pd.DataFrame(best_fit_optimizer_results))", "        self._df2.append(pd.DataFrame(best_fit_optimizer_results))", "C20.R3"),
